@@ -32,7 +32,7 @@ def mutate(r, t, ascii_only=False):
     for _ in range(r.choice([1, 1, 2, 3, 8])):
         if not t:
             break
-        k = r.choice(["flip", "flip", "del", "dup", "ins", "trunc", "swaplines", "dellines", "hexedit"])
+        k = r.choice(["flip", "flip", "del", "dup", "ins", "trunc", "swaplines", "dellines", "hexedit", "dropinstr"])
         i = r.randrange(len(t))
         if k == "flip":
             t[i] = r.choice("0123456789ABCDEFabcdef:# >=,\n xZ" + ("" if ascii_only else "ä١"))
@@ -49,6 +49,13 @@ def mutate(r, t, ascii_only=False):
             t[i:i] = list(s)
         elif k == "trunc":
             del t[i:]
+        elif k == "dropinstr":
+            # remove every "#>" instruction of one name, so that a "##" header of that name stays in force
+            name = r.choice(["#>SELECT_IF", "#>SELECT ", "#>CHECK_FWVER", "#>CRC", "#>REBOOT"])
+            ls = [l for l in "".join(t).split("\n") if not l.startswith(name)]
+            t = list("\n".join(ls))
+            if r.random() < 0.7:
+                t[0:0] = list(r.choice(["##SELECT: abc\n", "##CHECK_FWVER: x\n", "##SELECT_IF: x\n", "##CRC: 1\n"]))
         else:
             ls = "".join(t).split("\n")
             if len(ls) > 2:
